@@ -46,9 +46,11 @@ def _run_chunk(harness, header, execs, wd, tag, timeout, env, extra_args):
         good = []
         for i, ln in enumerate(evs):
             try:
+                if len(ln) > 4000000:
+                    raise ValueError("oversized event")
                 json.loads(ln)
                 good.append(ln)
-            except ValueError:
+            except (ValueError, RecursionError):
                 if (rc != 0 or to) and i == len(evs) - 1:
                     continue
                 good.append(json.dumps({"op": "garbled", "raw": ln[:200]}))
@@ -115,9 +117,18 @@ def execute(chk, harness, header, execs, nproc=None, timeout=900, env=None, extr
         nproc = min(vlib.NCPU, 14)
     else:
         chunks = [c for c in (execs[i::nproc] for i in range(nproc)) if c]
+    # when executions keep dying (crash / hang), a handful of them is all the verdict needs: chunks that have not started yet
+    # are skipped (a change that makes every program hang would otherwise cost one timeout per program)
+    died = [0]
+
+    def guarded(i, c):
+        if died[0] >= 8:
+            return []
+        r = _run_chunk(harness, header, c, chk.wd, "%s%d" % (tag, i), timeout, env, extra_args)
+        died[0] += sum(1 for (_l, e) in r if e and ('"op":"crash"' in e[-1] or '"op":"hang"' in e[-1]))
+        return r
     with concurrent.futures.ThreadPoolExecutor(max_workers=nproc) as ex:
-        futs = [ex.submit(_run_chunk, harness, header, c, chk.wd, "%s%d" % (tag, i), timeout, env, extra_args)
-                for i, c in enumerate(chunks)]
+        futs = [ex.submit(guarded, i, c) for i, c in enumerate(chunks)]
         out = []
         for f in futs:
             out += f.result()
